@@ -67,10 +67,7 @@ BOUNDS = {"quick": dict(us_step=997, trades=3, open_orders=3, balances=3), "thor
 EXPLANATION = "bounded exhaustive input enumeration through the real clients / wrapper classes; every case is an implementation run"
 # Genuine defects of the unchanged tree that the scenarios below report; they stay disabled until /repo is repaired
 # (enable with VERIF_ENABLE_PENDING=1, e.g. to test a repair: notes/I2-defect-1.py, notes/I2-defect-1.patch).
-PENDING_DEFECTS = {
-    "I2-defect-1": "decimal-valued EXTRA keyword arguments of the order entry points (icebergQty, limit_price, ...) are "
-                   "transmitted in exponent notation (8.5E-7, 1E+3): scenarios ('outk', <entry point>)",
-}
+PENDING_DEFECTS = {}  # I2-defect-1 (decimal extra keyword arguments in exponent notation) was repaired in /repo
 COEFFS = (1, 5, 12, 85, 100, 1230, 123456789)
 DECIMALS = [D(c).scaleb(e) for c in COEFFS for e in range(-12, 13)]
 LONG_DECIMALS = [D("123456789012.123456789012"), D("999999999999.999999999999"), D("123456789012.12345678901234567"),
